@@ -8,8 +8,8 @@ a race verdict.
 go.  What it leaves out is the race verdict: the twin detects races with loom's clocks (`Thread.causality`,
 incremented by `rt::synchronize` at cell accesses and by `new_thread` at `spawn`; joined with the `Synchronize` clock
 of a mutex at `post_acquire`, published there at `release_lock`; handed to a new thread at `spawn`; published in the
-`JoinHandle`'s `Notify` when a thread ends and acquired by `join` — and, ahead of time, by every thread already
-waiting in `join`, which `Notify::notify` lets join the notifier's causality at once), the reference with textbook
+`JoinHandle`'s `Notify` when a thread ends and acquired by `join` when its wait returns — `Notify::notify` itself
+only wakes the joiner and hands no clock to anybody: repair of finding F26), the reference with textbook
 vector clocks that tick at every operation.  The two clock systems are different functions of the run; they agree
 on every race check.
 
